@@ -388,7 +388,7 @@ class chunk_size:
         coverage.to_chunks = self.orig
 
 
-POOL_BINS = [("c1", 0, 60, "p0"), ("c2", 0, 100, "p1"), ("c1", 60, 130, "p2"), ("c1", 100, 220, "p3"), ("c1", 220, 400, "p4"), ("c2", 100, 200, "p5"), ("c1", 10, 20, "p6")]
+POOL_BINS = [("c1", 0, 60, "p0"), ("c2", 0, 100, "p1"), ("c1", 60, 130, "p2"), ("c1", 100, 220, "p3"), ("c1", 220, 400, "p4"), ("c2", 100, 200, "p5"), ("c1", 10, 20, "p6"), ("c1", 150, 150, "p7")]  # p7: zero width, last in its chunk for chunk sizes 2 (position 1) and 1
 
 
 def run_pools(case, ctx, tmp):
